@@ -31,7 +31,9 @@ ASSUMPTIONS = [
 ]
 REQUIRED = {"ratios_checked": 3000, "direct_ratio_crosschecks": 100,
             "solver_queries_checked": 20,
-            "geometry_steps_rating_checked": 100}
+            "geometry_steps_rating_checked": 100,
+            "replacement_point_checked": 500,
+            "replacement_after_soc_checked": 5}
 MIN_NONTRIVIAL = {"quick": 100, "thorough": 800}
 PLAN = [("driven", 240, 3600), ("real", 120, 1800)]
 EPS = np.finfo(float).eps
@@ -164,9 +166,27 @@ def check_set(models, rng, viols, info, n_cand=3, crosscheck=True):
         with warnings.catch_warnings():
             warnings.simplefilter("ignore")
             try:
-                allsig = models.determinants(x_new)
-                one = [models.determinants(x_new, k)
-                       for k in range(itp.npt)]
+                # the order of the queries on one and the same set varies:
+                # all indices first; ONE index first (a value memoised for a
+                # set must not corrupt later answers); random single order
+                order = str(rng.choice(["all_first", "single_first",
+                                        "shuffled"]))
+                one = [None] * itp.npt
+                ks = list(range(itp.npt))
+                if order == "shuffled":
+                    ks = [int(v) for v in rng.permutation(itp.npt)]
+                if order == "all_first":
+                    allsig = models.determinants(x_new)
+                    for k in ks:
+                        one[k] = models.determinants(x_new, k)
+                else:
+                    cut = int(rng.integers(1, max(2, itp.npt)))
+                    for k in ks[:cut]:
+                        one[k] = models.determinants(x_new, k)
+                    allsig = models.determinants(x_new)
+                    for k in ks[cut:]:
+                        one[k] = models.determinants(x_new, k)
+                info["order:" + order] = info.get("order:" + order, 0) + 1
             except np.linalg.LinAlgError:
                 info["linalg"] = info.get("linalg", 0) + 1
                 continue
@@ -254,6 +274,12 @@ def run_real(case):
                        forms=("nlc",),
                        con=str(rng.choice(["none", "lin", "nl", "both"],
                                           p=[0.2, 0.3, 0.3, 0.2])))
+    if rng.random() < 0.3:
+        # curved feasible set hugging a face of the box: second-order
+        # correction steps abound (the C01 'soc' generator)
+        from checks import c01
+        spec = c01.make_spec({"id": case["id"], "fam": "soc",
+                              "idx": case["idx"], "seed": case["seed"]})
     viols = []
     info = {}
     budget = {"left": 4}
@@ -325,7 +351,38 @@ def run_real(case):
                     f"step was chosen without being rated",
                     mechanism="unrated_geometry_step"))
 
+    last_rm = {"x": None, "k": None, "checked": 0, "soc": 0}
+
+    def on_remove(run, tr, x_new, out):
+        last_rm["x"] = None if x_new is None else np.array(x_new, dtype=float,
+                                                           copy=True)
+        last_rm["k"] = out[0] if isinstance(out, tuple) else out
+
+    def on_update_pre(run, models, args):
+        # the index to replace was decided by determinant ratios computed FOR
+        # THE POINT THAT IS INSERTED (after a second-order correction the
+        # inserted point is the corrected one)
+        k_new, x_ins = args[0], np.asarray(args[1], dtype=float)
+        if last_rm["x"] is not None:
+            last_rm["checked"] += 1
+            if run.next_kind == "soc" or (run.evals and
+                                          run.evals[-1]["kind"] == "soc"):
+                last_rm["soc"] += 1
+            if last_rm["x"].tobytes() != x_ins.tobytes() or \
+                    last_rm["k"] != k_new:
+                if len(viols) < 3:
+                    viols.append(V(
+                        "replacement_rated_at_other_point",
+                        f"update_interpolation inserts "
+                        f"{x_ins.tolist()} at index {k_new}, but the index "
+                        f"to remove ({last_rm['k']}) was chosen from the "
+                        f"determinant ratios of {last_rm['x'].tolist()}",
+                        mechanism="index_for_other_point"))
+        last_rm["x"] = None
+
     def setup(r, rec):
+        r.on("tr.remove", on_remove)
+        r.on("models.update.pre", on_update_pre)
         r.on("models.det.post", on_det)
         r.on("step.geo.pre", on_geo_pre)
         r.on("models.det.post", on_det_any)
@@ -336,7 +393,9 @@ def run_real(case):
     counts.update({"ratios_checked": info.get("checked", 0),
                    "solver_queries_checked": info.get("queries", 0),
                    "solver_queries_seen": seen["n"],
-                   "geometry_steps_rating_checked": geo["checked"]})
+                   "geometry_steps_rating_checked": geo["checked"],
+                   "replacement_point_checked": last_rm["checked"],
+                   "replacement_after_soc_checked": last_rm["soc"]})
     nt = None
     if info.get("queries"):
         nt = "real|" + gen.spec_signature(spec)
